@@ -116,7 +116,7 @@ PROPS = {
         "quick": [L("checked", 1.0)],
         "thorough": [L("checked", 1.0), L("wrapping", 0.2), L("miri", 1.0, workers=16)],
         "assumptions": COMMON_ASSUME,
-        "exhaustive_notes": ["6 localizers x 8 languages x all 16104 paths of depth 1..=4 over 11 components, with and without trailing slash, plus 8 degenerate paths"],
+        "exhaustive_notes": ["6 localizers x 8 languages x all 30940 paths of depth 1..=4 over 13 components, with and without trailing slash, plus 8 degenerate paths"],
     },
     "C19": {
         "quick": [L("checked", 1.0), L("wrapping", 1.0)],
